@@ -212,7 +212,9 @@ def mono_raise_ok(path):
 
 def run_wiring(topo):
     def run(ctx):
-        eq, info = tk.build_equilibrium(ctx, topo, psi_pf=(0.9, 0.85))
+        mult = ctx.real("psi_spacing_separatrix_multiplier")
+        ctx.assume(mult > 0)
+        eq, info = tk.build_equilibrium(ctx, topo, psi_pf=(0.9, 0.85), multiplier=mult)
         seg = info["segments"]
         with spec_mode():
             sep_grads = []
